@@ -80,6 +80,18 @@ class StateVector(np.ndarray):
         super().__setstate__(state["basestate"])
         object.__setattr__(self, "_data", state["data"])
 
+    def __copy__(self):
+        """``copy.copy()``: numpy's own ``__copy__`` hands out an array that owns its
+        data (``base`` is ``None``), on which ``copy()`` and the frame / form setters fail
+        """
+        return self.copy()
+
+    def __deepcopy__(self, memo):
+        """``copy.deepcopy()``: same thing, see :py:meth:`__copy__`"""
+        new = self.copy()
+        memo[id(self)] = new
+        return new
+
     def copy(self, *, frame=None, form=None, same=None):
         """Provide a new object of the same point in space-time. Optionally,
         allow for frame and form conversion
